@@ -39,7 +39,10 @@ def cases(draw):
             "px_form": draw(st.sampled_from(["frame", "dict", "chunks"])),
             "cols": draw(st.sampled_from([None, ["count", "x"]])),
             "cuts": draw(st.lists(st.integers(0, 25), max_size=3).map(sorted)),
-            "dict_order": draw(st.permutations(names)), "metadata": draw(st.sampled_from([None, {"lab": "x", "n": 3}]))}
+            "dict_order": draw(st.permutations(names)), "metadata": draw(st.sampled_from([None, {"lab": "x", "n": 3}])),
+            # history: the path first holds an ordinary cooler (and is asked about) before the single-cell file replaces it
+            "prior": draw(st.sampled_from([None, None, "cooler", "scool"])),
+            "count_dtype": draw(st.sampled_from([None, None, "float64", "int64"]))}
 
 
 def _natkey(s):
@@ -72,6 +75,9 @@ def check_scool(case, ctx: Ctx):
         bins_arg = bins
 
     def px(rows):
+        if case.get("count_dtype"):
+            bump = 0.5 if case["count_dtype"] == "float64" else 2**33
+            rows = [[r[0], r[1], r[2] + bump, *r[3:]] for r in rows]
         df = pixel_frame(rows, ["count", "x"])
         if case["px_form"] == "frame":
             return df
@@ -82,6 +88,21 @@ def check_scool(case, ctx: Ctx):
     pixels_arg = {nm: px(cells[nm]) for nm in case["dict_order"]}
     path = ctx.tmp(".scool")
     kw = {}
+    cdt = case.get("count_dtype")
+    if cdt:
+        # values that do not survive the default int32: fractional (float64) or beyond 2^31 (int64)
+        bump = 0.5 if cdt == "float64" else 2**33
+        cells = {nm: [[r[0], r[1], r[2] + bump, *r[3:]] for r in rows] for nm, rows in cells.items()}
+        kw["dtypes"] = {"count": np.dtype(cdt)}
+    if case.get("prior"):
+        from ..coolio import create_from_model
+
+        if case["prior"] == "cooler":
+            call("create plain cooler first", create_from_model, path, bt, [], True)
+            check(call("is_scool_file(plain cooler)", is_scool_file, path) is False, "an ordinary cooler file is recognised as single-cell")
+        else:
+            call("create other scool first", cooler.create_scool, path, bins, {"old_cell": pixel_frame([], ["count", "x"])}, ordered=True)
+            check(call("list_scool_cells(old)", list_scool_cells, path) == ["/cells/old_cell"], "listing of the earlier single-cell file")
     if case["cols"]:
         kw["columns"] = list(case["cols"])
     if case["metadata"]:
@@ -114,6 +135,8 @@ def check_scool(case, ctx: Ctx):
             got = [[a, b, *[df[c].tolist()[t] for c in cols]] for t, (a, b) in enumerate(zip(df["bin1_id"].tolist(), df["bin2_id"].tolist()))]
             want = [[r[0], r[1], *[r[idx[c]] for c in cols]] for r in rows]
             check(got == want, lambda: f"cell {nm!r} reads back as {got[:5]}, supplied {want[:5]}")
+            if case.get("count_dtype"):
+                check(str(df["count"].dtype) == case["count_dtype"], f"cell {nm!r}: count stored as {df['count'].dtype}, requested {case['count_dtype']}")
             A = clr.matrix(balance=False)[:]
             check(np.array_equal(A, model.dense(rows, n, symmetric, 0)), f"cell {nm!r}: full matrix differs")
             check(model.read_bins(clr) == model.bins_rows(bt), f"cell {nm!r}: bin table differs from the common table")
@@ -130,7 +153,8 @@ def check_scool(case, ctx: Ctx):
     distinct = {str(v) for v in cells.values() if v}
     ctx.record(case, len(distinct) >= 2, ["scool", f"cells={len(cells)}", "bins=" + case["bins_form"], "px=" + case["px_form"],
                                           "has-empty-cell" if any(not v for v in cells.values()) else "no-empty-cell",
-                                          "natsort-differs" if sorted(cells) != sorted(cells, key=_natkey) else "natsort-same"])
+                                          "natsort-differs" if sorted(cells) != sorted(cells, key=_natkey) else "natsort-same",
+                                          "prior=" + str(case.get("prior")), "count=" + str(case.get("count_dtype"))])
 
 
 CHECKS = {"scool": check_scool}
